@@ -144,7 +144,75 @@ fn msf(sector: u64) -> String {
     format!("{:02}:{:02}:{:02}", sector / (75 * 60), (sector / 75) % 60, sector % 75)
 }
 
+/// cue sheet text for a non-CD-DA stream of `total` samples (not a multiple of 588): offsets are plain
+/// sample numbers, up to 254 tracks and 254 index points, catalog number up to 128 digits
+pub fn draw_cue_text_non_cdda(ch: &Choices, total: u64) -> String {
+    let tracks = *ch.pick("meta.cuen.tracks", &[1u64, 2, 3, 5, 100, 253, 254, 255]);
+    let mut t = String::new();
+    match ch.draw("meta.cuen.cat", 5) {
+        1 => t.push_str("CATALOG 1234567890123\n"),
+        2 => t.push_str("CATALOG \"42\"\n"),
+        3 => t.push_str(&format!("CATALOG {}\n", "7".repeat(128))),
+        4 => t.push_str(&format!("CATALOG {}\n", "7".repeat(129))),
+        _ => {}
+    }
+    t.push_str("FILE \"x.flac\" FLAC\n");
+    let per = (total / (tracks + 1)).max(4);
+    for k in 0..tracks {
+        t.push_str(&format!("  TRACK {:02} AUDIO\n", k + 1));
+        match ch.draw("meta.cuen.isrc", 6) {
+            2 => t.push_str("    ISRC ABCDE7654321\n"),
+            3 => t.push_str("    ISRC \"AA-6Q7-20-00047\"\n"),
+            _ => {}
+        }
+        if ch.draw("meta.cuen.flags", 4) == 3 {
+            t.push_str("    FLAGS PRE\n");
+        }
+        let base = k * per;
+        let mut pos = base;
+        let mut idx = if k > 0 && ch.draw("meta.cuen.pregap", 2) == 1 { 0 } else { 1 };
+        let mut extra = if tracks <= 5 { *ch.pick("meta.cuen.idx", &[0u64, 1, 2, 252, 253, 254]) } else { ch.draw("meta.cuen.idx2", 2) };
+        if idx == 0 {
+            extra = extra.max(1); // a pre-gap point is followed by INDEX 01
+        }
+        for _ in 0..=extra {
+            t.push_str(&format!("    INDEX {:02} {}\n", idx, pos));
+            idx += 1;
+            pos += 1 + ch.draw("meta.cuen.step", 3);
+            if pos >= base + per {
+                break;
+            }
+        }
+    }
+    crate::monitor::probe("cue_non_cdda_text");
+    t
+}
+
 pub fn draw_cuesheet(ch: &Choices) -> Option<Cuesheet> {
+    if ch.draw("meta.cue.noncdda", 3) == 2 {
+        let total = 588 * (600 + ch.draw("meta.cue.len", 4000)) + 1 + ch.draw("meta.cue.off588", 587);
+        let text = draw_cue_text_non_cdda(ch, total);
+        let c = Cuesheet::parse(total, &text);
+        if std::env::var_os("VERIF_DEBUG_CUE").is_some() {
+            if let Err(e) = &c {
+                eprintln!("CUE refused: {e:?} tracks={} total={total}", text.matches("TRACK ").count());
+            }
+        }
+        let c = c.ok();
+        if c.is_some() {
+            crate::monitor::probe("cue_non_cdda_accepted");
+            if text.contains("TRACK 254 ") {
+                crate::monitor::probe("cue_non_cdda_accepted_254_tracks");
+            }
+            if text.contains("INDEX 254 ") {
+                crate::monitor::probe("cue_non_cdda_accepted_index_254");
+            }
+            if text.contains(&"7".repeat(128)) {
+                crate::monitor::probe("cue_non_cdda_accepted_128_digit_catalog");
+            }
+        }
+        return c;
+    }
     let total = 588 * (600 + ch.draw("meta.cue.len", 4000));
     let text = draw_cue_text(ch, total);
     Cuesheet::parse(total, &text).ok()
